@@ -964,6 +964,12 @@ func (p *pkgInfo) mentionShape(recv, name, mention string) ([]string, error) {
 					out = append(out, "for "+t)
 				}
 			}
+		case *ast.CaseClause:
+			for _, e := range n.List {
+				if t := pr(e); strings.Contains(t, mention) {
+					out = append(out, "case "+t)
+				}
+			}
 		}
 		return true
 	})
@@ -1103,6 +1109,15 @@ func main() {
 				fmt.Fprintf(&b, "def tcp_%s : Nat := %s\n", leanIdent(n), v)
 			}
 		}
+		// application/websocket: frame header bits
+		{
+			p := load("protocol/application/websocket")
+			for _, n := range []string{"finalBit", "maskBit", "TextMessage", "CloseMessage"} {
+				v, err := p.constVal(n)
+				must(err)
+				fmt.Fprintf(&b, "def ws_%s : Nat := %s\n", leanIdent(n), v)
+			}
+		}
 		b.WriteString("\nend Gen.Consts\n")
 		write("Consts", b.String())
 	}
@@ -1169,6 +1184,34 @@ func main() {
 			sh, err := ip4.mentionShape("endpoint", "WritePacket", "id")
 			must(err)
 			b.WriteString(leanStrList("ipv4_id_alloc", sh))
+		}
+		// application: the statements the HTTP / WebSocket models mirror
+		{
+			hp := load("protocol/application/http")
+			wp := load("protocol/application/websocket")
+			for _, sp := range []struct {
+				p                      *pkgInfo
+				lean, recv, fn, mention string
+			}{
+				{hp, "http_header_loop", "Request", "parse", "tmp"},
+				{hp, "http_blank_line", "Request", "parse", "HasPrefix"},
+				{hp, "http_body", "Request", "parse", "req.body"},
+				{hp, "http_parse_status", "Request", "parse", "status_code"},
+				{hp, "http_set_status", "Connection", "set_status_code", "status_code"},
+				{hp, "http_error", "Response", "Error", "status_code"},
+				{hp, "http_dispatch", "ServeMux", "dispatch", "defaultMux"},
+				{hp, "http_server_read", "ServerSocket", "Read", "notifyC"},
+				{hp, "http_match_until", "", "match_until", "i"},
+				{wp, "ws_send_len", "Conn", "SendData", "length"},
+				{wp, "ws_read_len", "Conn", "ReadData", "dataLen"},
+				{wp, "ws_read_hdr", "Conn", "ReadData", "b["},
+				{wp, "ws_read_case", "Conn", "ReadData", "12"},
+				{wp, "ws_mask", "", "maskBytes", "pos"},
+			} {
+				sh, err := sp.p.mentionShape(sp.recv, sp.fn, sp.mention)
+				must(err)
+				b.WriteString(leanStrList(sp.lean, sh))
+			}
 		}
 		b.WriteString("\nend Gen.Shapes\n")
 		write("Shapes", b.String())
